@@ -241,6 +241,12 @@ def Mon.observe (m : Mon) (ws : List String) (fields : List (String × String)) 
         if genuine && noFault && r.part == part && !m.corrupted then
           if ok && payOk then fails else fails ++ [("C01", s!"genuine record #{n} of this partition did not decrypt to its payload")]
         else fails
+      -- C05: records written under a revoked key (or under a key whose system key was revoked) stay decryptable
+      let fails :=
+        if genuine && noFault && r.part == part && !m.corrupted && !(ok && payOk) &&
+           (m.revoked.any fun (id, c, _) => (id == s!"ik{part}" && c == r.ik) || id == "sk") then
+          fails ++ [("C05", s!"record #{n}, written under a key that was revoked later, no longer decrypts")]
+        else fails
       let fails := if ok && !payOk then fails ++ [("C07", "decrypt returned bytes other than the original payload")] else fails
       let fails := if !genuine && ok && !payOk then fails ++ [("C07", "modified record decrypted to other bytes")] else fails
       let fails := if r.part != part && ok then fails ++ [("C06", "record of another partition decrypted")] else fails
